@@ -3,9 +3,11 @@ package main
 
 import (
 	"bytes"
+	"errors"
 	"fmt"
 	"reflect"
 	"strings"
+	"time"
 
 	"github.com/Tnze/go-mc/nbt"
 	"github.com/Tnze/go-mc/nbt/dynbt"
@@ -156,6 +158,40 @@ var entries = []entry{
 		_, err := dec(in).Decode(p.Interface())
 		return err, 0
 	}},
+	{"unmarshaler-elements", func(in *input, _ reflect.Type) (error, int) {
+		// list elements / map values that decode themselves (their UnmarshalNBT is called once per declared element)
+		var a []dynbt.Value
+		_, err := dec(in).Decode(&a)
+		n := len(a)
+		var b []nbt.RawMessage
+		_, errB := dec(in).Decode(&b)
+		n = max(n, len(b))
+		var m map[string][]*dynbt.Value
+		_, errM := dec(in).Decode(&m)
+		for _, l := range m {
+			n = max(n, len(l))
+		}
+		if err == nil || errB == nil || errM == nil {
+			return nil, n
+		}
+		return err, 0
+	}},
+	{"interface-with-methods", func(in *input, _ reflect.Type) (error, int) {
+		// a target whose interface type has methods cannot hold any decoded value: an error, not a reflect panic
+		var s struct {
+			V fmt.Stringer
+			E error
+		}
+		_, err := dec(in).Decode(&s)
+		var m map[string]fmt.Stringer
+		_, err2 := dec(in).Decode(&m)
+		var l []error
+		_, err3 := dec(in).Decode(&l)
+		if err == nil && err2 == nil && err3 == nil {
+			return nil, 0
+		}
+		return errors.Join(err, err2, err3), 0
+	}},
 	{"raw", func(in *input, _ reflect.Type) (error, int) {
 		var m nbt.RawMessage
 		_, err := dec(in).Decode(&m)
@@ -188,10 +224,8 @@ var entries = []entry{
 }
 
 func check(c *vm.Ctx, in *input, typed reflect.Type) {
-	// allocation bound: decoders may allocate a declared length before validating it
 	if refnbt.MaxDeclaredLen(in.b, in.network) > 1<<20 || refnbt.MaxDeclaredLen(in.b, !in.network) > 1<<20 {
-		c.Cover("skipped.declared-length-above-2^20")
-		return
+		c.Cover("declared-length-above-2^20") // no longer skipped: decoders grow their buffers as data arrives
 	}
 	cl, kind, _ := classify(in)
 	c.Cover("class." + cl.String())
@@ -230,7 +264,129 @@ func originClass(o string) string {
 	return o
 }
 
+// ---------------------------------------------------------------------------------------------------
+// Inputs that can take the whole process down. A runtime-fatal error ("out of memory", "stack overflow")
+// is not a panic: no recover() sees it, the process is gone. Each of these inputs therefore runs in a
+// process of its own (vm.RunIsolated), under the address-space limit the driver sets for this run mode
+// (1 GiB, a small server): a few bytes that declare a huge array must come back as an error, not as an
+// allocation the machine cannot satisfy; a megabyte of nested containers must come back as an error (or
+// a value), not as a stack overflow.
+
+type isoTarget struct {
+	name string
+	dec  func(doc []byte, network bool) error
+}
+
+func isoTargets() []isoTarget {
+	mk := func(name string, target func() any) isoTarget {
+		return isoTarget{name, func(doc []byte, network bool) error {
+			d := nbt.NewDecoder(bytes.NewReader(doc))
+			d.NetworkFormat(network)
+			_, err := d.Decode(target())
+			return err
+		}}
+	}
+	type holder struct {
+		A []int64  `nbt:"a"`
+		B []int32  `nbt:"b"`
+		C []byte   `nbt:"c"`
+		D []string `nbt:"d"`
+	}
+	return []isoTarget{
+		mk("any", func() any { return new(any) }),
+		mk("[]int64", func() any { return new([]int64) }),
+		mk("[]int32", func() any { return new([]int32) }),
+		mk("[]byte", func() any { return new([]byte) }),
+		mk("[]int8", func() any { return new([]int8) }),
+		mk("struct", func() any { return new(holder) }),
+		mk("map", func() any { return new(map[string]any) }),
+		mk("RawMessage", func() any { return new(nbt.RawMessage) }),
+		mk("StringifiedMessage", func() any { return new(nbt.StringifiedMessage) }),
+		mk("dynbt.Value", func() any { return new(dynbt.Value) }),
+		mk("struct-skipping-unknown", func() any { return new(struct{ Z int32 }) }),
+		{"RawMessage.String", func(doc []byte, network bool) error {
+			var m nbt.RawMessage
+			d := nbt.NewDecoder(bytes.NewReader(doc))
+			d.NetworkFormat(network)
+			if _, err := d.Decode(&m); err != nil {
+				return err
+			}
+			_ = m.String()
+			return nil
+		}},
+	}
+}
+
+func be32(v uint32) []byte { return []byte{byte(v >> 24), byte(v >> 16), byte(v >> 8), byte(v)} }
+
+func runIsolatedCases(c *vm.Ctx) {
+	var cases []vm.IsoCase
+	add := func(class, name string, doc []byte, network bool) {
+		for _, t := range isoTargets() {
+			t := t
+			cases = append(cases, vm.IsoCase{Name: name + " into " + t.name, Class: class + "@" + t.name, Input: doc,
+				Run: func() error { return t.dec(doc, network) }})
+		}
+	}
+	// 1. a few bytes declaring a huge array / list
+	for _, cnt := range []uint32{0x7fffffff, 0x40000000, 0x08000000} {
+		for _, tag := range []byte{refnbt.ByteArray, refnbt.IntArray, refnbt.LongArray} {
+			doc := append([]byte{tag}, be32(cnt)...)
+			add("declared-length/"+refnbt.TagName(tag), fmt.Sprintf("%s declaring %d elements, no payload", refnbt.TagName(tag), cnt), doc, true)
+			// the same inside a compound member (fields a, b, c of the struct target)
+			key := map[byte]string{refnbt.ByteArray: "c", refnbt.IntArray: "b", refnbt.LongArray: "a"}[tag]
+			doc2 := append([]byte{refnbt.Compound, tag, 0, 1, key[0]}, be32(cnt)...)
+			add("declared-length/member."+refnbt.TagName(tag), fmt.Sprintf("compound member %s declaring %d elements", refnbt.TagName(tag), cnt), doc2, true)
+			// and as the element type of a list with one element
+			doc3 := append([]byte{refnbt.List, tag, 0, 0, 0, 1}, be32(cnt)...)
+			add("declared-length/listelem."+refnbt.TagName(tag), fmt.Sprintf("list of %s, first element declaring %d", refnbt.TagName(tag), cnt), doc3, true)
+		}
+		for _, et := range []byte{refnbt.End, refnbt.Byte, refnbt.Long, refnbt.String, refnbt.Compound, refnbt.List, refnbt.LongArray} {
+			doc := append([]byte{refnbt.List, et}, be32(cnt)...)
+			add("declared-length/List."+refnbt.TagName(et), fmt.Sprintf("list of %s declaring %d elements, no payload", refnbt.TagName(et), cnt), doc, true)
+		}
+	}
+	// 2. deep nesting (3 bytes per compound level, 5 per list level)
+	for _, depth := range []int{20000, 300000, 1000000} {
+		var comp, list []byte
+		comp = append(comp, refnbt.Compound)
+		for i := 0; i < depth; i++ {
+			comp = append(comp, refnbt.Compound, 0, 0)
+		}
+		list = append(list, refnbt.List)
+		for i := 0; i < depth; i++ {
+			list = append(list, refnbt.List, 0, 0, 0, 1)
+		}
+		list = append(list, refnbt.End, 0, 0, 0, 0)
+		// the compounds are left unterminated (a strict prefix) or closed
+		add(fmt.Sprintf("deep-nesting/compounds.%d.unterminated", depth), fmt.Sprintf("%d nested compounds, cut off", depth), comp, true)
+		closed := append(append([]byte{}, comp...), make([]byte, depth+1)...)
+		add(fmt.Sprintf("deep-nesting/compounds.%d.closed", depth), fmt.Sprintf("%d nested compounds, all closed", depth), closed, true)
+		add(fmt.Sprintf("deep-nesting/lists.%d", depth), fmt.Sprintf("%d nested single-element lists", depth), list, true)
+	}
+	c.RunIsolated("c03", cases, 120*time.Second, func(i int, cs *vm.IsoCase, r vm.IsoResult) {
+		c.Eval(vm.Hash64(cs.Input, []byte(cs.Class)), true)
+		wit := map[string]any{"what": cs.Name, "input_len": len(cs.Input), "input_head_hex": vm.Hex(cs.Input[:min(len(cs.Input), 48)]), "address_space_limit": "1 GiB (ulimit -v)"}
+		switch {
+		case r.Died:
+			c.Violation("isolated/process-died/"+cs.Class+"/"+vm.NormMsg(r.Fatal), fmt.Sprintf("the process running this one decode ended without a verdict: %s", r.Fatal), wit)
+		case r.ErrMsg == "" && !strings.Contains(cs.Class, ".closed") && !strings.HasPrefix(cs.Class, "deep-nesting/lists"):
+			c.Violation("isolated/success-on-truncated/"+cs.Class, "a document cut off inside a declared array / container decoded without error", wit)
+		default:
+			if strings.HasPrefix(cs.Class, "deep") {
+				c.Cover("isolated.deep-nesting.survived")
+			} else {
+				c.Cover("isolated.declared-length.rejected")
+			}
+		}
+	})
+}
+
 func run(c *vm.Ctx) {
+	if c.Mode == "capped" {
+		runIsolatedCases(c)
+		return
+	}
 	c.EnableSpinWatch("spin", 15)
 	r := c.Rand("docs")
 	cfg := nbtgen.Default()
@@ -270,9 +426,6 @@ func run(c *vm.Ctx) {
 		// every field: mutation table
 		for _, f := range fields {
 			for _, m := range nbtgen.FieldMutations(doc, f) {
-				if strings.HasPrefix(m.Name, "len=1048576") && i%8 != 0 {
-					continue // 2^20 declared lengths cost a 16 MiB allocation each: on every 8th document only
-				}
 				check(c, &input{b: m.Bytes, network: network, origin: m.Name, prior: doc}, typed)
 				c.Cover("mut." + m.Name)
 			}
